@@ -108,6 +108,9 @@ def render_tree(t, ops, top=True):
     return s if top else "(" + s + ")"
 
 
+PROLOGUE = "_p = (1 and 0) or 2\n_q = not (_p or 0) and True\n"
+
+
 def render(prog):
     chain = render_tree(prog["tree"], prog["ops"])
     if prog["stmt"] == "assign":
@@ -123,7 +126,10 @@ def render(prog):
     if prog["sep"] == ";":
         return s + "; after\n"
     if prog["sep"] == "nl":
-        return s + "\nafter\n"
+        # the chain is not the first statement of its unit: ordinary Python boolean expressions come first
+        # (they run no command and must not influence how later chains are compiled or judged);
+        # chains in first position are covered by the `;` / no-follower / `if` programs
+        return PROLOGUE + s + "\nafter\n"
     return s + "\n"
 
 
